@@ -7,7 +7,7 @@ CLAIMED = {
  "C01": dict(
     technique="property-based testing (Hypothesis): generated networks, independent mass bookkeeping over result tables",
     text="Exploration: thousands of generated networks (all fluids, component mixes, outage patterns, label schemes, solver "
-         "configurations) per run; the oracle re-does the mass bookkeeping from the result tables alone with a round-off "
+         "configurations; heating loops incl. open loops with make-up grid and parallel pumps; meshed lattices of up to 100 / 625 junctions for the size-independence of the bound) per run; the oracle re-does the mass bookkeeping from the result tables alone with a round-off "
          "tolerance (1e-9 relative). Counterexamples shrink to small recipes that are replayed without Hypothesis. No absence claim.",
     note="Trusted: numpy/pandas, the documented sign conventions of the result tables. Non-converged generated nets are discards. "
          "One known finding (automatic damping freezes the slack mass) is suppressed by a narrow signature.",
@@ -24,7 +24,7 @@ CLAIMED["C14"] = dict(
 CLAIMED["C19"] = dict(
     technique="enumeration of the fluid / std-type libraries against an own file parser + Hypothesis-generated queries, user properties, integrals, mixtures, pump curves",
     text="Exploration with exhaustive sub-spaces: all library fluids x tabulated properties x tabulated points / mid-points / extrapolation, "
-         "all pump and pipe standard types are enumerated against an independent parser of the data files; generated queries (scalar, array, "
+         "all pump and pipe standard types are enumerated against an independent parser of the data files; generated histories of pipe creations with per-pipe overrides must leave the library values in place; generated queries (scalar, array, "
          "Series), user-defined properties of the five classes with algebraic integral laws, mixtures and pump types are checked by law.",
     note="Trusted: the library data files, numpy.polyfit/polyval. Lists as query type are not claimed (the property quantifies over scalars, arrays, Series). "
          "Known finding: hydrogen slope vs stored derivative.",
@@ -36,7 +36,7 @@ CLAIMED["C05"] = dict(
          "hydraulic and heating nets in all four modes with injected faults (absurd loads, iteration limits 0..3, zero tolerances, NaN "
          "parameters, contradictory controllers, no supply) - every stage is recorded by wrapping newton_raphson from outside; post-state after "
          "return (converged flag, finite results) and after raise (exception type, flag, no number in any result table); (3) histories of "
-         "successful and failing runs on one net object.",
+         "successful and failing runs on one net object, with pickle / JSON round trips, deep copies and touched result tables between the runs.",
     note="Trusted: the outside wrappers do not change behaviour. Documented input rejections (UserWarning) are not counted as non-convergence. "
          "Two known findings (duplicate controlled junction; bidirectional+automatic restore) are suppressed by narrow signatures.",
     ref="DESIGN.md 4/C05")
@@ -72,7 +72,7 @@ CLAIMED["C03"] = dict(
 CLAIMED["C04"] = dict(
     technique="exhaustive enumeration of 2^k status-flag patterns on fixed topologies + Hypothesis-generated outage patterns, against a reference reachability model and a deleted-rest differential",
     text="Exploration with exhaustive sub-spaces: all 2^k patterns of in_service / opened / control_active flags (branches, ju and pi valves, "
-         "flow controllers, heat consumers, junctions, feeders) on three fixed topologies are enumerated completely (k=8 quick, 10-12 thorough) "
+         "flow controllers, heat consumers, junctions, feeders) on four fixed topologies (incl. junction-pipe valves at both ends of a pipe and in parallel, duty + stand-by pressure controller) are enumerated completely (k=8 quick, 10-12 thorough) "
          "and generated nets with outage patterns are added; for each the NaN pattern of every result table (hydraulic and thermal columns) "
          "is compared with an independent BFS reachability model, the results are compared with those of the recipe from which everything "
          "unsupplied / out of service was deleted, and a net without supplied junction must raise PipeflowNotConverged.",
@@ -109,8 +109,8 @@ CLAIMED["C09"] = dict(
     ref="DESIGN.md 4/C09")
 CLAIMED["C10"] = dict(
     technique="property-based testing (Hypothesis) against the documented cooling law and junction energy balance re-evaluated with an independent heat-capacity table",
-    text="Exploration: generated district-heating loops (meshes, >= 3 inflows, reverse flow against the declared direction, 1-4 sections, u, "
-         "ambient and outer-diameter variants, all consumer modes) in modes sequential, bidirectional and heat with both engines; per flowing "
+    text="Exploration: generated district-heating loops (meshes, >= 3 inflows, a second pump feeding the flow junction, reverse flow against the declared direction, 1-4 sections, u, "
+         "ambient and outer-diameter variants, all consumer modes) and transport nets of every library fluid incl. gases (several feed temperatures, valves, heights) in modes sequential, bidirectional and heat with both engines; per flowing "
          "pipe section (walked in flow direction) the exponential cooling law, per junction the energy-conserving mix of the delivered stream "
          "temperatures, feeder temperatures and the min/max bounds are asserted with tolerances of 1e-6 K / 1e-6 relative "
          "(measured on the tree: 2e-11 K, 2e-12).",
@@ -121,14 +121,14 @@ CLAIMED["C11"] = dict(
     technique="property-based testing (Hypothesis): duty identities, consumer set-points and loop closure re-evaluated from the result tables",
     text="Exploration: generated loops with 1-6 consumers in all five specification modes, exchangers with/without flow control, Q of either "
          "sign, sequential and bidirectional mode: q = mdot*cp_mean*(T_in - T_out) for every exchanger / consumer, the two prescribed consumer "
-         "quantities equal their set-points when mdot is prescribed or the mode is bidirectional, and the circulation pump's reported heat "
+         "quantities equal their set-points when mdot is prescribed or the mode is bidirectional, every circulation pump's reported heat equals the heat added to its own stream, and the pumps' heat (one pump, or two in parallel with different feed temperatures) "
          "closes the loop within the heat-capacity discretisation bound.",
     note="Trusted: cp table parsed from the library file. Known finding: sequential mode with (Q, T_ret) consumers.",
     ref="DESIGN.md 4/C11")
 CLAIMED["C12"] = dict(
     technique="history-based property testing: generated operation lists on one net object with snapshot / repeat / fresh-net oracles",
     text="Exploration: generated lists of 3-8 operations (pipeflow in varying modes, engines, friction models, damping, failing settings, "
-         "matrix-update option; edit-run-undo of parameters; set_user_pf_options; hydraulics followed by mode='heat' from the stored solution) "
+         "matrix-update / reuse options; edit-run-undo of parameters and of the wiring; set_user_pf_options; hydraulics followed by mode='heat' from the stored solution; pickle round trip / deepcopy / re-assigned result column between runs) "
          "are executed on one net object. After every calculation a deep snapshot of all element tables (values, dtypes, index), fluid, "
          "standard types and user options must be unchanged, an immediate repeat must be bit-identical and the result must be bit-identical "
          "to the same call on a freshly built net carrying the current parameters.",
@@ -139,7 +139,7 @@ CLAIMED["C16"] = dict(
     technique="model-based history testing: generated sequences of single / bulk create calls with one injected fault per call, snapshot and twin-net oracles",
     text="Exploration: generated histories of 4-14 calls over all 17 single and 11 bulk element-creating functions on nets of every sector; "
          "each call is valid (random optional arguments omitted) or carries exactly one injected fault. Accepted call: row count, returned / "
-         "forced index, every given value, documented defaults (parsed from the docstring) for omitted arguments, declared column dtypes, "
+         "forced index, every given value (per-element values of bulk calls handed over as list, array or pandas Series with matching, shifted or foreign labels), documented defaults (parsed from the docstring) for omitted arguments, declared column dtypes, "
          "unique index, other tables untouched; rejected call: deep snapshot of the whole net unchanged; every bulk call is replayed as single "
          "calls on a twin net (values and dtypes); standard-type pipes / pumps are compared with elements created from the type's parameters; "
          "all references resolve at the end.",
@@ -150,7 +150,7 @@ CLAIMED["C17"] = dict(
     technique="history-based differential testing of the toolbox against reference transforms + metamorphic physics check after relabelling",
     text="Exploration: generated nets containing junction-pipe valves, remote pressure controllers, circulation pumps and consumers get a "
          "generated list of 2-7 toolbox operations (reindex_junctions / pipes / elements, continuous-index functions, drop_junctions, drop_pipes, "
-         "drop_elements_at_junctions, fuse_junctions, select_subnet with generated lookups and junction sets). Before each operation the tables "
+         "drop_elements_at_junctions, fuse_junctions, select_subnet with generated lookups - fresh, permuted, sparse, multiples of the table length - and junction sets). Before each operation the tables "
          "are copied and a small reference implementation of the operation is applied to the copy; the real tables must equal it row for "
          "row, every reference must resolve, after relabelling the pipeflow results must equal the previous ones up to the relabelling, and "
          "select_subnet of the supplied region must reproduce its results.",
@@ -180,8 +180,8 @@ CLAIMED["C15"] = dict(
     ref="DESIGN.md 4/C15")
 CLAIMED["C13"] = dict(
     technique="differential property-based testing: generated time series (profiles, step subsets / orders, infeasible steps) vs stand-alone pipeflow per step",
-    text="Exploration: generated nets get ConstControl profiles for a generated subset of sinks, sources (mass flow) and ext grids "
-         "(pressure) over 3-8 steps, with steps made infeasible on purpose; the series is run for a generated subset of steps in a generated "
+    text="Exploration: generated nets get ConstControl profiles for a generated subset of sinks, sources (mass flow), ext grids "
+         "(pressure, outage), valves (switching), pipes / exchangers (in_service), heat consumers, flow and pressure controllers (set-points) over 3-8 steps, with steps made infeasible on purpose, optionally with only_update_hydraulic_matrix + reuse_internal_data and with a controller that needs several control iterations per step; the series is run for a generated subset of steps in a generated "
          "order with and without continue_on_divergence (hydraulic and sequential mode). Every logged row of the OutputWriter must equal, bit "
          "for bit, a pipeflow on a freshly built net carrying that step's values; failing steps must be flagged (powerflow_failed) and must "
          "not alter later steps, or must stop the series with PipeflowNotConverged.",
